@@ -133,7 +133,7 @@ def truncDT (tf : TimeForm) (frac : List Nat) (t : DT) : DT :=
 theorem isoparse_inverts_datetime_core (t : DT) (ht : t.Valid) (df : DateForm) (hc : df.complete = true)
     (tf : TimeForm) (htf : tf ≠ .none) (frac : List Nat)
     (hfrac : tf.hasFrac = true → frac ≠ [] ∧ ∀ d ∈ frac, d ≤ 9)
-    (o : OffForm) (xo : Fields) (how : offWF o xo = true) (sep : Nat) (hsep : isDigit sep = false)
+    (o : OffForm) (xo : Fields) (how : offWF o xo = true) (sep : Nat) (hsep : df = .ordBas → isDigit sep = false)
     (cfg : Option Nat) (hcfg : cfg = none ∨ cfg = some sep) :
     isoparse cfg (render ⟨df, tf, o, sep⟩ (dtFields df t frac xo)) =
       .ok ⟨truncDT tf frac t, offDenote o xo⟩ := by
@@ -158,7 +158,7 @@ theorem isoparse_inverts_datetime_core (t : DT) (ht : t.Valid) (df : DateForm) (
   have hW := final_time df _ tf xt o xo sep t.y t.m t.d [] hd hc hscan how
     (Or.inl ⟨by rw [hsh1]; omega, by rw [hsh2]; split <;> omega, by rw [hsh3]; split <;> omega⟩)
   rw [hdt]
-  have hr := isoparse_render_core ⟨df, tf, o, sep⟩ _ cfg hW (fun _ => hsep) hcfg
+  have hr := isoparse_render_core ⟨df, tf, o, sep⟩ _ cfg hW (fun _ h => hsep h) hcfg
   rw [hr]
   congr 1
   have h24 : ¬ (timeShown tf xt).1 = 24 := by rw [hsh1]; omega
